@@ -185,51 +185,59 @@ func (s *SelectStmt) ValidateFields(ctx *CheckCtx) error {
 		}
 	}
 	// A field name defined in terms of itself can never be evaluated
+	// (done: the names already found free of cycles, each is looked into once)
+	done := map[string]bool{}
 	for _, f := range s.Fields {
-		if err := checkFieldReferenceCycle(f, map[string]bool{}); err != nil {
+		if err := checkFieldReferenceCycle(f, map[string]bool{}, done); err != nil {
 			return err
 		}
 	}
 	if s.Where != nil && s.Where.Expr != nil {
-		if err := checkFieldReferenceCycle(s.Where.Expr, map[string]bool{}); err != nil {
+		if err := checkFieldReferenceCycle(s.Where.Expr, map[string]bool{}, done); err != nil {
 			return err
 		}
 	}
 	return nil
 }
 
-func checkFieldReferenceCycle(expr Expression, visiting map[string]bool) error {
+func checkFieldReferenceCycle(expr Expression, visiting map[string]bool, done map[string]bool) error {
 	switch e := expr.(type) {
 	case *FieldReferenceExpr:
 		name := e.Name.Data
+		if done[name] {
+			return nil
+		}
 		if visiting[name] {
 			return NewSyntaxError(e.GetPos(), "Field %s is defined by itself", name)
 		}
 		visiting[name] = true
-		err := checkFieldReferenceCycle(e.FieldExpr, visiting)
+		err := checkFieldReferenceCycle(e.FieldExpr, visiting, done)
 		delete(visiting, name)
+		if err == nil {
+			done[name] = true
+		}
 		return err
 	case *BinaryOpExpr:
-		if err := checkFieldReferenceCycle(e.Left, visiting); err != nil {
+		if err := checkFieldReferenceCycle(e.Left, visiting, done); err != nil {
 			return err
 		}
-		return checkFieldReferenceCycle(e.Right, visiting)
+		return checkFieldReferenceCycle(e.Right, visiting, done)
 	case *NotExpr:
-		return checkFieldReferenceCycle(e.Right, visiting)
+		return checkFieldReferenceCycle(e.Right, visiting, done)
 	case *FunctionCallExpr:
 		for _, arg := range e.Args {
-			if err := checkFieldReferenceCycle(arg, visiting); err != nil {
+			if err := checkFieldReferenceCycle(arg, visiting, done); err != nil {
 				return err
 			}
 		}
 	case *ListExpr:
 		for _, item := range e.List {
-			if err := checkFieldReferenceCycle(item, visiting); err != nil {
+			if err := checkFieldReferenceCycle(item, visiting, done); err != nil {
 				return err
 			}
 		}
 	case *FieldAccessExpr:
-		return checkFieldReferenceCycle(e.Left, visiting)
+		return checkFieldReferenceCycle(e.Left, visiting, done)
 	}
 	return nil
 }
